@@ -8,12 +8,17 @@ accounted for by the model; for EVERY program the current code can only panic at
 product sink x runtime type x dynamic route (every operator side, condition, index, method x arity, command
 argument, index-assignment root x number/string/bool/null/array/command/result x parameter/element/pop/
 mixed-return/re-assigned variable) is executed on the real runtime on every run, plus the generated
-main stream and the corpus. Implementation-level oracle (no model): an accepted program ends in ok or
-a reported runtime error — never panic, abort or hang (ORACLE-FAIL [C06])."""
+main stream (its program shapes include functions defined in dead code — after return / comot / next —
+and reached through hoisting, whose helpers only they call) and the corpus (corpus/run, corpus/C06).
+Implementation-level oracle (no model): an accepted program, run with the optimisation plan and the
+frame arena as the CLI runs it (and again without either), ends in ok or a reported runtime error —
+never panic, abort or hang (ORACLE-FAIL [C06])."""
 import runlib
 from common import Check
 
 MODULES = ["NaijaVerif.Props.C06Eval", "NaijaVerif.Props.C06Accepted"]
+# corpus/run plus the hand-written C06 programs (hoisted functions whose definition statement is dead code)
+CORPUS_DIRS = ("C06",)
 
 
 def run(ck: Check):
@@ -25,8 +30,13 @@ def run(ck: Check):
     runlib.run_obligations(ck, MODULES)
     ck.build_driver(runlib.DRIVER_FAMILIES)
     runlib.float_selftest(ck, 1000 if ck.tier == "quick" else 20000)
+    # every `run` request is executed WITH the resolver's optimisation plan and the frame arena (as the CLI
+    # does: run_with_analysis(.., Some(plan))), then again without the frame arena and without the plan
     streams = runlib.run_streams(ck, ck.tier, kinds=("corpus", "product", "main"),
-                                 n_main=1500 if ck.tier == "quick" else 60000)
+                                 n_main=1500 if ck.tier == "quick" else 60000, corpus_dirs=CORPUS_DIRS)
+    if streams.get("main"):
+        ck.extra_cov["main_dead_definition_programs"] = {
+            k: ck.counters.get("feature_" + k, 0) for k in ("dead_def_idiom", "dead_def_hoisted")}
     prod = streams.get("product")
     if prod:
         ends = {}
@@ -49,13 +59,14 @@ def search(ck, streams):
         src = runlib.src_of(f["request"])
 
         def still(s):
-            _r, a, _b, _f = runlib.one_case(ck, s)
-            return any(k in a for k in ("end=panic", "end=abort", "end=timeout"))
+            _r, a, _b, fl = runlib.one_case(ck, s, guard=True)  # a candidate that no longer terminates is no crash
+            return any(k in a for k in ("end=panic", "end=abort", "end=timeout")) or any("[C06]" in l for l in fl)
 
         small = runlib.shrink_program(ck, src, still) if len(src) < 6000 else src
         req, a, b, fails = runlib.one_case(ck, small)
         ck.report_violation({"kind": "impl-vs-oracle", "family": "run", "what": f["what"][:400], "program": small,
-                             "requests": [req], "impl": a, "model": b, "broken": ck.broken[:5]})
+                             "requests": [req], "impl": a, "model": b, "oracle_fails": fails,
+                             "crashing_cases": len(crashes), "broken": ck.broken[:5]})
         return
     rep = runlib.report_disagreements(ck, "real runtime and evaluator model disagree (no crashing program found)", streams)
     if rep is not None:
